@@ -378,6 +378,54 @@ def make_machine(sh, blocked_docs, blocked_ops):
                 pass
 
         @rule(n=st.integers(0, 10**6))
+        def get_dotted(self, n):
+            """`m["a.b.c"]` walks the path (documented fallback of the mapping): the value when every step exists, KeyError
+            otherwise — also when the path runs into a value that is not a mapping."""
+            if self.dead or self.alias is not None or not self.model:
+                return
+            r = random.Random(n)
+            segs, cur = [], self.model
+            for _ in range(r.randint(1, 3)):
+                if not isinstance(cur, dict) or not cur:
+                    break
+                k = r.choice(sorted(cur))
+                segs.append(k)
+                cur = cur[k]
+            kind = r.choice(["existing", "through-scalar", "missing-tail"])
+            if kind == "through-scalar":
+                if isinstance(cur, dict):
+                    return
+                segs.append(r.choice(["major", "z", "k"]))
+            elif kind == "missing-tail":
+                if not isinstance(cur, dict):
+                    return
+                segs.append("absent9")
+            if len(segs) < 2 or any("." in s_ for s_ in segs):
+                return
+            key = ".".join(segs)
+            self.history.append(["get", "doc", [], key])
+            before = self._text()
+            try:
+                got = self.src[key]
+            except KeyError:
+                if kind == "existing":
+                    return self._fail("get-existing-raises-KeyError|dotted", {"key": key})
+                if self._text() != before:
+                    return self._fail("missing-key-has-side-effect|get-dotted", {"key": key})
+                sh.classes["op:get-dotted-" + kind] += 1
+                return
+            except Exception as e:  # noqa: BLE001
+                return self._fail(f"get-raises:{type(e).__name__}|dotted-{kind}", {"key": key})
+            if kind != "existing":
+                return self._fail("get-missing-returns-value|dotted", {"key": key})
+            try:
+                if differs(to_py(got), cur):
+                    return self._fail("get-returns-wrong-value|dotted", {"key": key, "want": cur})
+            except cst.NotData:
+                pass
+            sh.classes["op:get-dotted-existing"] += 1
+
+        @rule(n=st.integers(0, 10**6))
         def set_into_non_mapping(self, n):
             if self.dead:
                 return
@@ -480,6 +528,21 @@ def replay(case):
                 except KeyError:
                     if key in m:
                         fails.append(("del-existing-raises-KeyError", {"key": key}))
+            elif "." in key:
+                segs, mm, ok = key.split("."), m, True
+                for sname in segs:
+                    if isinstance(mm, dict) and sname in mm:
+                        mm = mm[sname]
+                    else:
+                        ok = False
+                        break
+                try:
+                    obj[key]
+                    if not ok:
+                        fails.append(("get-missing-returns-value|dotted", {"key": key}))
+                except KeyError:
+                    if ok:
+                        fails.append(("get-existing-raises-KeyError|dotted", {"key": key}))
             else:
                 try:
                     obj[key]
